@@ -236,6 +236,7 @@ section examples
 /-- `struct { K int; P string }` — the cursor type of the harness's connections. -/
 def curTy : Ty := .struct [([75], .int .w64), ([80], .str)]
 
+/-- The harness's cursor type is one the encoder writes faithfully (distinct field names). -/
 theorem curTy_ok : curTy.Ok := by
   refine ⟨by decide, by decide, ?_⟩
   intro f hf
@@ -256,6 +257,16 @@ example :
     mpDecode curTy [0x81, 0xa1, 75, 0xa1, 112] = none ∧
     mpDecode curTy [0x82, 0xa1, 75, 1] = none := by
   refine ⟨?_, ?_, ?_, ?_⟩ <;> decide
+
+set_option maxRecDepth 8000 in
+/-- `cursor_reemit` is not vacuous: a client-made, non-canonical cursor (compact integer, keys in
+    the other order, a line break in the text) is accepted, and what the server re-emits for that
+    position is a different text that decodes to the same position. -/
+example :
+    cursorDec curTy "gqFQoXChS80B\nLA" = some (.struct [.int 300, .str [112]]) ∧
+    cursorEnc curTy (.struct [.int 300, .str [112]]) = "gqFL0wAAAAAAAAEsoVChcA" ∧
+    cursorDec curTy "gqFL0wAAAAAAAAEsoVChcA" = some (.struct [.int 300, .str [112]]) := by
+  refine ⟨by decide, by decide, by decide⟩
 
 end examples
 
